@@ -618,6 +618,24 @@ func runAuth(accounts map[string]string, setHeader func(*http.Request)) (string,
 			break
 		}
 	}
+	// the account list is the caller's map: a gate that was built on an empty map which the application fills afterwards
+	// (accounts loaded at start-up, after the routes were declared) gives the verdict of the filled list
+	if len(accounts) > 0 {
+		late := map[string]string{}
+		r3 := rux.New()
+		ran3 := false
+		r3.GET("/p", func(c *rux.Context) { ran3 = true }, handlers.HTTPBasicAuth(late))
+		for k, v := range accounts {
+			late[k] = v
+		}
+		rq := httptest.NewRequest("GET", "/p", nil)
+		setHeader(rq)
+		w3 := httptest.NewRecorder()
+		r3.ServeHTTP(w3, rq)
+		if ran3 != ran || (!ran && w3.Code != w.Code) {
+			oracle = append(oracle, fmt.Sprintf("C20 basic auth: the gate built before its account map was filled answers ran=%v status=%d, the gate built on the filled map ran=%v status=%d", ran3, w3.Code, ran, w.Code))
+		}
+	}
 	return fmt.Sprintf("%s ran=%s status=%d www=%s user=%s pwd=%s", outcome, b2s(ran), w.Code, www, user, pwd), oracle
 }
 
@@ -868,18 +886,34 @@ func runChain(nglobal int, spec string, hdrTok string) (string, []string) {
 	}
 	last := len(hs) - 1
 	r.GET("/p", hs[last], hs[nglobal:last]...)
-	req := httptest.NewRequest("GET", "/p", nil)
-	req = req.WithContext(context.WithValue(req.Context(), gatesCtxKey{}, "outer"))
-	if v, ok := unohx(hdrTok); ok {
-		req.Header.Set("Authorization", v)
+	serve := func(done bool) string {
+		trace = nil
+		req := httptest.NewRequest("GET", "/p", nil)
+		cx := context.WithValue(req.Context(), gatesCtxKey{}, "outer")
+		if done {
+			var cancel context.CancelFunc
+			cx, cancel = context.WithCancel(cx)
+			cancel()
+		}
+		req = req.WithContext(cx)
+		if v, ok := unohx(hdrTok); ok {
+			req.Header.Set("Authorization", v)
+		}
+		w := httptest.NewRecorder()
+		r.ServeHTTP(w, req)
+		return fmt.Sprintf("st%d trace=%s www=%s ;; body=%s", w.Code, strings.Join(trace, "."), showWWW(w.Result()), hx(w.Body.String()))
 	}
-	w := httptest.NewRecorder()
-	r.ServeHTTP(w, req)
+	ans := serve(false)
 	var orc []string
 	if ctxLost {
 		orc = append(orc, fmt.Sprintf("C20 adapters: the std handler wrapped at chain position %d did not get the request context of the chain (a value stored under a typed key by an outer wrapper is gone)", lostBy))
 	}
-	return fmt.Sprintf("st%d trace=%s www=%s ;; body=%s", w.Code, strings.Join(trace, "."), showWWW(w.Result()), hx(w.Body.String())), orc
+	// an adapter calls its handler with (c.Resp, c.Req) - nothing else: the chain does the same when the request's
+	// context is already cancelled (a client that went away; whether to still answer is the wrapped handler's decision)
+	if ans2 := serve(true); ans2 != ans {
+		orc = append(orc, fmt.Sprintf("C20 adapters: with a cancelled request context the chain answers %q, otherwise %q", ans2, ans))
+	}
+	return ans, orc
 }
 
 type gatesCtxKey struct{}
